@@ -328,3 +328,6 @@ def check(ctx):
     # shared oracle: operators return new values, operands bound to variables are never updated in place
     import alias_common
     alias_common.run(ctx, prefix="alias")
+    # comprehensions nested inside each other re-using session names: the session reads as before afterwards
+    import nested_common
+    nested_common.run(ctx, ctx.n(400, 6000), "nested")
